@@ -23,6 +23,7 @@ type keyCase struct {
 	pkRef, skRef []byte
 	pk           *imldsa.PublicKey
 	sk           *imldsa.SecretKey
+	buf          candBuf
 }
 
 func (k *keyCase) String() string {
@@ -58,7 +59,8 @@ func noPanic(f func() error) (err error, panicked any) {
 // verifyBoth is the equivalence oracle: Tink's Verify decision must be the reference's.
 func (k *keyCase) verifyBoth(t *rapid.T, kind string, msg, ctx, sig []byte) bool {
 	want := mldsaref.Verify(k.ps.ref, k.pkRef, msg, ctx, sig)
-	err, pan := noPanic(func() error { return k.pk.Verify(msg, sig, ctx) })
+	vs, vm := k.buf.views(sig, msg)
+	err, pan := noPanic(func() error { return k.pk.Verify(vm, vs, ctx) })
 	if pan != nil {
 		t.Fatalf("%v: candidate kind=%s: Verify PANICS: %v (reference Verify=%v)\nmsg = %x\nctx = %x\nsig = %x", k, kind, pan, want, msg, ctx, sig)
 	}
@@ -71,7 +73,8 @@ func (k *keyCase) verifyBoth(t *rapid.T, kind string, msg, ctx, sig []byte) bool
 // verifyBothMu is the same oracle on the external-mu entry points.
 func (k *keyCase) verifyBothMu(t *rapid.T, kind string, mu [64]byte, sig []byte) bool {
 	want := mldsaref.VerifyMu(k.ps.ref, k.pkRef, mu, sig)
-	err, pan := noPanic(func() error { return k.pk.VerifyWithMu(mu, sig) })
+	vs, _ := k.buf.views(sig, nil)
+	err, pan := noPanic(func() error { return k.pk.VerifyWithMu(mu, vs) })
 	if pan != nil {
 		t.Fatalf("%v: candidate kind=%s: VerifyWithMu PANICS: %v (reference VerifyMu=%v)\nmu  = %x\nsig = %x", k, kind, pan, want, mu, sig)
 	}
@@ -440,6 +443,7 @@ func TestScheme(t *testing.T) {
 
 		evid.Add("verify_candidates", int64(candidates))
 		evid.Add("verify_candidates_accepted", int64(accepted))
+		evid.Add("candidates_in_reused_buffers", int64(k.buf.reused))
 		class := fmt.Sprintf("%s/msg=%s/ctx=%s", ps.name, gen.LenClass(len(msg)), ctxClass(len(ctx)))
 		evid.Case(class, true, evid.NewH().S(ps.name).B(seed).B(msg).B(ctx).B(rnd).I(int64(entropy)).Sum(), func() any {
 			return map[string]any{"key": k.String(), "msg": gen.Hex(msg), "ctx": gen.Hex(ctx), "rnd": fullHex(rnd), "entropy": entropy, "candidates": candidates, "accepted": accepted, "sig": hashHex(det)}
@@ -662,5 +666,140 @@ func TestBoundarySignatures(t *testing.T) {
 		evid.Case(key+"/produced", true, evid.NewH().S(ps.name).S(ck.name).B(seed).B(msg).B(ctx).I(int64(rndSeed)).Sum(), func() any {
 			return map[string]any{"case": desc, "reference_accepts": ok, "z_inf": zInf, "gamma1-beta": p.Gamma1 - p.Beta, "hint_weight": weight, "omega": p.Omega, "sig": hashHex(sig)}
 		})
+	})
+}
+
+// ---- L4: the fourth rejection test of the signing loop ------------------------------------------
+
+// loudLoopLimit bounds the reference loop of one TestLoudT0Signing signature (kappa = iteration * l
+// stays far below 2^16).
+const loudLoopLimit = 3000
+
+// TestLoudT0Signing: FIPS 204 Algorithm 7 rejects an iteration also when ||c*t0||inf >= gamma2
+// (line 28). For keys made by KeyGen that test practically never decides: t0 is uniform in
+// (-2^12, 2^12], so c*t0 stays far below gamma2. ML-DSA.Sign_internal is defined on every secret key
+// ENCODING that skDecode accepts, so the unit signs with the encoding of an honest key in which some
+// polynomials of t0 are replaced by coefficients of the largest magnitude (+2^12 or -(2^12-1), drawn
+// signs): each coefficient of c*t0 is then a sum of tau terms +-2^12 and reaches gamma2 = 95232 of
+// ML-DSA-44 in a sizeable fraction of the iterations (for ML-DSA-65/-87 tau * 2^12 < gamma2: the
+// test can never decide there, whatever the key; those sets only see large hints). The library
+// (DecodeSecretKey, then the deterministic, external-mu and explicit-rnd entry points) must produce
+// the reference's signature for the same key bytes, byte for byte. Every reference iteration is
+// classified by the tests that reject it; an iteration rejected by the c*t0 test ALONE is one where
+// an implementation without that test would return another signature.
+func TestLoudT0Signing(t *testing.T) {
+	rapid.Check(t, func(rt *rapid.T) {
+		entropy := rapid.Uint64().Draw(rt, "entropy")
+		detrand.Seed(entropy)
+		ps := psets[0]
+		if rapid.IntRange(0, 9).Draw(rt, "other_set") >= 7 {
+			ps = psets[rapid.IntRange(1, 2).Draw(rt, "pset")]
+		}
+		p := ps.ref
+		seed := gen.BytesN(rt, "seed", 32)
+		msg := gen.Bytes(rt, "msg", 256)
+		ctx := drawCtx(rt, "ctx", false)
+		rnd := arr32(gen.BytesN(rt, "rnd", 32))
+		// more loud polynomials: more c*t0 rejections, but also more hint-weight rejections (about 27 ones
+		// per loud polynomial for ML-DSA-44, omega = 80)
+		loud := rapid.IntRange(1, p.K/2+1).Draw(rt, "loud_polys")
+		signSeed := rapid.Uint64().Draw(rt, "t0_signs")
+		quiet := rapid.SampledFrom([]string{"honest", "zero"}).Draw(rt, "quiet_polys")
+
+		k := newKeyCase(rt, ps, seed)
+		rho, key, tr, s1, s2, t0, ok := mldsaref.SKDecode(p, k.skRef)
+		if !ok {
+			rt.Fatalf("harness: reference cannot decode its own secret key")
+		}
+		sm := &splitmix{signSeed}
+		first := int(sm.intn(int64(p.K)))
+		for i := 0; i < p.K; i++ {
+			isLoud := (i-first+p.K)%p.K < loud
+			for j := range t0[i] {
+				switch {
+				case isLoud && sm.next()&1 == 0:
+					t0[i][j] = 1 << 12
+				case isLoud:
+					t0[i][j] = mldsaref.Mod(-(1<<12 - 1))
+				case quiet == "zero":
+					t0[i][j] = 0
+				}
+			}
+		}
+		skBytes := mldsaref.SKEncode(p, rho, key, tr, s1, s2, t0)
+		desc := fmt.Sprintf("%s: secret key encoding of seed %x with t0 polynomials %d..%d (mod %d) replaced by +2^12 / -(2^12-1) (signs from splitmix seed %#x, other polynomials %s) sk=%s msg=%x ctx=%x rnd=%x",
+			ps.name, seed, first, first+loud-1, p.K, signSeed, quiet, fullHex(skBytes), msg, ctx, rnd)
+
+		sk, err := ps.tk.DecodeSecretKey(bytes.Clone(skBytes))
+		if err != nil {
+			rt.Fatalf("%s: DecodeSecretKey: %v", desc, err)
+		}
+		if got := sk.Encode(); !bytes.Equal(got, skBytes) {
+			rt.Fatalf("%s: Encode(DecodeSecretKey(sk)) differs from sk\ntink = %x", desc, got)
+		}
+		mPrime, _ := mldsaref.FormatMessage(msg, ctx)
+		mu := mldsaref.ComputeMu(p, tr, mPrime)
+
+		std := mldsaref.StandardAccept(p)
+		type tally struct{ iters, z, r0, ct0, hint, ct0Sole, ct0OrHintOnly int }
+		signRef := func(rnd [32]byte) ([]byte, tally) {
+			var tl tally
+			accept := func(zInf, r0Inf, ct0Inf int64, w int) bool {
+				tl.iters++
+				bz, br, bc, bh := zInf >= int64(p.Gamma1-p.Beta), r0Inf >= int64(p.Gamma2-p.Beta), ct0Inf >= int64(p.Gamma2), w > p.Omega
+				for _, c := range []struct {
+					hit bool
+					n   *int
+				}{{bz, &tl.z}, {br, &tl.r0}, {bc, &tl.ct0}, {bh, &tl.hint}, {bc && !bz && !br && !bh, &tl.ct0Sole}, {(bc || bh) && !bz && !br, &tl.ct0OrHintOnly}} {
+					if c.hit {
+						*c.n++
+					}
+				}
+				return std(zInf, r0Inf, ct0Inf, w)
+			}
+			sig, ok := mldsaref.SignMuCustom(p, skBytes, mu, rnd, accept, loudLoopLimit)
+			if !ok {
+				return nil, tl
+			}
+			return sig, tl
+		}
+		want, tl := signRef([32]byte{})
+		wantR, tlR := signRef(rnd)
+		evid.Add("loud_reference_iterations", int64(tl.iters+tlR.iters))
+		evid.Add("loud_rejected_by/z-norm", int64(tl.z+tlR.z))
+		evid.Add("loud_rejected_by/r0-norm", int64(tl.r0+tlR.r0))
+		evid.Add("loud_rejected_by/ct0-norm", int64(tl.ct0+tlR.ct0))
+		evid.Add("loud_rejected_by/hint-weight", int64(tl.hint+tlR.hint))
+		evid.Add("loud_rejected_by/ct0-norm-alone", int64(tl.ct0Sole+tlR.ct0Sole))
+		evid.Add("loud_rejected_by/second-stage-only(ct0-or-hint)", int64(tl.ct0OrHintOnly+tlR.ct0OrHintOnly))
+		class := fmt.Sprintf("loud-t0/%s/loud=%d", ps.name, loud)
+		if want == nil || wantR == nil {
+			// the reference did not finish within the bound: nothing to compare (counted, not hidden)
+			evid.Case(class+"/reference-loop-bound-reached", false, 0, nil)
+			return
+		}
+		if got, err := sk.SignDeterministic(msg, ctx); err != nil || !bytes.Equal(got, want) {
+			rt.Fatalf("%s: SignDeterministic (err=%v) differs from the reference's Sign_internal with rnd = 0 on the same key bytes (reference: %d iterations, rejected by z/r0/ct0/hint in %d/%d/%d/%d, by ct0 alone in %d)\ntink = %x\nref  = %x",
+				desc, err, tl.iters, tl.z, tl.r0, tl.ct0, tl.hint, tl.ct0Sole, got, want)
+		}
+		if got := sk.SignDeterministicWithMu(mu); !bytes.Equal(got, want) {
+			rt.Fatalf("%s: SignDeterministicWithMu(mu=%x) differs from the reference on the same key bytes\ntink = %x\nref  = %x", desc, mu, got, want)
+		}
+		if got := imldsa.VerifSignInternalWithMu(sk, mu, rnd); !bytes.Equal(got, wantR) {
+			rt.Fatalf("%s: signInternalWithMu(mu, rnd) differs from the reference on the same key bytes (reference: %d iterations, by ct0 alone %d)\ntink = %x\nref  = %x", desc, tlR.iters, tlR.ct0Sole, got, wantR)
+		}
+		if got := imldsa.VerifSignInternal(sk, mPrime, rnd); !bytes.Equal(got, wantR) {
+			rt.Fatalf("%s: signInternal(M', rnd) differs from the reference on the same key bytes\ntink = %x\nref  = %x", desc, got, wantR)
+		}
+		// the honest public key's verdict on these signatures (t0 is not the one behind t1): reference decides
+		k.verifyBoth(rt, "loud-t0-signature(rnd=0)", msg, ctx, want)
+		k.verifyBoth(rt, "loud-t0-signature(rnd)", msg, ctx, wantR)
+		evid.Add("loud_signatures_compared", 4)
+		sole := tl.ct0Sole+tlR.ct0Sole > 0
+		evid.Case(fmt.Sprintf("%s/ct0-alone-rejections=%v", class, sole), true,
+			evid.NewH().S(ps.name).B(seed).I(int64(loud)).I(int64(signSeed)).S(quiet).B(msg).B(ctx).B(rnd[:]).Sum(), func() any {
+				return map[string]any{"set": ps.name, "seed": fullHex(seed), "loud": loud, "first": first, "t0_signs": signSeed, "quiet": quiet, "msg": gen.Hex(msg),
+					"iterations": []int{tl.iters, tlR.iters}, "ct0_alone": []int{tl.ct0Sole, tlR.ct0Sole}, "sig": hashHex(want)}
+			})
 	})
 }
